@@ -167,8 +167,26 @@ for r in rres:
     for me in r["methods"]:
         if me.get("name") == "partial_update" and me.get("returnEntity"):
             me["returnEntity"] = False
+# The root generator has no remedy for clashing type names inside a namespace cycle (both fam.alpha.model.Node and
+# fam.beta.model.Node land in conflictResolution/Node.gr.go, the later write wins: a finding of its own, kept in
+# clash.root.spec.json). In the family the second one is renamed so that everything else can be explored.
+def rename_beta_node(x):
+    if isinstance(x, dict):
+        if x.get("name") == "Node" and x.get("namespace") == "fam.beta.model":
+            x["name"] = "NodeB"
+        for v in x.values():
+            rename_beta_node(v)
+    elif isinstance(x, list):
+        for v in x:
+            rename_beta_node(v)
+rtypes = copy.deepcopy(types)
+clash = [t for t in copy.deepcopy(types) if list(t.values())[0].get("name") in ("Node", "Holder")]
+rename_beta_node(rtypes)
+rename_beta_node(rres)
 with open(os.path.join(HERE, "family", "root.spec.json"), "w") as f:
-    json.dump({"dataTypes": types, "resources": rres}, f, indent=1); f.write("\n")
+    json.dump({"packageRoot": ROOT, "dataTypes": rtypes, "resources": rres}, f, indent=1); f.write("\n")
+with open(os.path.join(HERE, "family", "clash.root.spec.json"), "w") as f:
+    json.dump({"packageRoot": "vscratch/clash", "dataTypes": clash, "resources": []}, f, indent=1); f.write("\n")
 
 # ---- the small manifest used by the generator-under-faults scenario (S6) ----
 small = {"packageRoot": "vscratch/small", "dependencyDataTypes": [],
@@ -179,6 +197,8 @@ small = {"packageRoot": "vscratch/small", "dependencyDataTypes": [],
                                  action("poke", [field("c", ref("Color"))], ret=ref("Name"))])]}
 with open(os.path.join(HERE, "family", "small.manifest.json"), "w") as f:
     json.dump(small, f, indent=1); f.write("\n")
+with open(os.path.join(HERE, "family", "small.root.spec.json"), "w") as f:
+    json.dump({"packageRoot": small["packageRoot"], "dataTypes": small["inputDataTypes"], "resources": small["resources"]}, f, indent=1); f.write("\n")
 
 # ---- glue ------------------------------------------------------------------------------
 def pkgpath(ns): return ROOT + "/" + ns.replace(".", "/")
